@@ -12,7 +12,7 @@ From GV Require Import Proofs.AMapOk Proofs.WFDefs Proofs.WFNode Proofs.QueryOk 
      Proofs.PartitionOk Proofs.LouvainOk Proofs.MoveGainOk Proofs.AggregationOk
      Proofs.LouvainSets Proofs.LouvainStructOk Proofs.LouvainNumOk Proofs.LouvainTermOk
      Proofs.LouvainLevelOk Proofs.LouvainGenGraphOk Proofs.LouvainAggOk Proofs.LouvainConvertOk
-     Proofs.LouvainLevelsOk Proofs.LouvainNoFuelOk.
+     Proofs.LouvainLevelsOk Proofs.LouvainNoFuelOk Proofs.HistoryOk Spec.History.
 Import ListNotations.
 Open Scope Q_scope.
 
@@ -371,3 +371,39 @@ Section Entry.
     - apply (louvain_communities_fuel_inv teqb tltb lf sf g weighted res thr perms H).
   Qed.
 End Entry.
+
+(* ---- the hypotheses are satisfiable: an evaluated instance with two levels (a ring of four pairs) ---- *)
+Local Notation mo_ex_graph :=
+  (new_from_nodes_and_edges Z.eqb Z.ltb
+    (map (fun z => mknode z (None : option Z)) [1; 2; 3; 4; 5; 6; 7; 8]%Z)
+    [mkedge 1%Z 2%Z None None; mkedge 3%Z 4%Z None None; mkedge 5%Z 6%Z None None;
+     mkedge 7%Z 8%Z None None; mkedge 2%Z 3%Z None None; mkedge 6%Z 7%Z None None;
+     mkedge 1%Z 4%Z None None; mkedge 5%Z 8%Z None None; mkedge 4%Z 5%Z None None]
+    (mkspecs false DErr MCreate false true SErr)) (only parsing).
+Definition mo_ex_perms : list (list nat) :=
+  [[0]; [1; 0]; [2; 0; 1]; [3; 1; 0; 2]; [4; 2; 0; 3; 1]; [5; 3; 1; 0; 2; 4]; [6; 0; 3; 1; 5; 2; 4];
+   [0; 1; 2; 3; 4; 5; 6; 7]]%nat.
+Definition mo_ex_levels : list (list (list Z)) :=
+  [[[2; 1]; [4; 3]; [5; 8]; [7; 6]]; [[2; 1; 4; 3]; [5; 8; 7; 6]]]%Z.
+
+Example louvain_model_nonvacuous :
+  exists g,
+    mo_ex_graph = Ok g /\ WF Z.eqb Z.ltb g /\ weights_ok g false /\ 0 <= 1 /\
+    (length (nodes_vec g) < 10)%nat /\
+    louvain_partitions_t Z.eqb Z.ltb 10 50 g false 1 (1 # 10000000) mo_ex_perms = Ok (mo_ex_levels, false).
+Proof.
+  assert (Zasym : forall x y : Z, Z.ltb x y = true -> Z.ltb y x = false).
+  { intros x y H. apply Z.ltb_lt in H. apply Z.ltb_ge. lia. }
+  assert (Ztot : forall x y : Z, Z.ltb x y = false -> Z.ltb y x = false -> x = y).
+  { intros x y H1 H2. apply Z.ltb_ge in H1. apply Z.ltb_ge in H2. lia. }
+  assert (R : match mo_ex_graph with
+              | Ok g => (length (nodes_vec g) < 10)%nat /\
+                        louvain_partitions_t Z.eqb Z.ltb 10 50 g false 1 (1 # 10000000) mo_ex_perms = Ok (mo_ex_levels, false)
+              | _ => False
+              end) by (vm_compute; split; [lia | reflexivity]).
+  destruct mo_ex_graph as [g|k|s|] eqn:E; try contradiction.
+  exists g. split; [reflexivity|]. split.
+  - apply (WF_reachable Z.eqb Z.ltb Z.eqb_eq Zasym Ztot (mkspecs false DErr MCreate false true SErr)).
+    eapply new_from_reachable; [exact Z.eqb_eq | exact E].
+  - split; [intro H; discriminate|]. split; [lra | exact R].
+Qed.
